@@ -256,6 +256,29 @@ def build_cases(rng, tier):
                 for ctx in sorted(set([1, 2, na] + rng.sample(range(1, na + 1), min(na, 2)))):
                     for ids in ([1, 2], sorted(rng.sample(range(1, nb + 1), min(nb, 4))), list(range(1, nb + 1))):
                         cases.append((da + 1, ctx, 1, 1, e, {"e": {"t": "ns", "v": [[db + 1, i, 0] for i in ids]}}))
+    # DYNAMIC EVALUATION family: dyn:evaluate / xalan:evaluate of a string is the expression the string says, evaluated where the call
+    # stands - at the top of the expression the context node is the starting node, inside a predicate it is the node being filtered,
+    # with that predicate's position and size
+    AT = lambda n_: path([step("attribute", t_name(n_))])
+    inner = [AT("x"), AT("id"), bin_(">", AT("x"), num(1)), bin_("=", path([step("self", T_NODE, abbr=True)]), lit("t")), fn("count", path([ch_(T_ANY)])),
+             bin_(">", fn("count", path([ch_(T_ANY)])), num(1)), path([ch_(t_name("a"))]), path([step("parent", T_NODE, abbr=True)]), fn("name"),
+             fn("position"), fn("last"), bin_("=", fn("position"), fn("last")), num(2), fn("string-length"), path([ch_(T_TEXT)]),
+             path([step("following-sibling", T_ANY, num(1), abbr=False)]), fn("not", AT("x")), fn("string", path([step("self", T_NODE, abbr=True)])),
+             fn("sum", path([ch_(T_ANY)])), bin_("+", lit("x"), num(1))]
+    dyn_tests = []
+    for k_, in_ in enumerate(inner):
+        w_ = xpgen.xeval("dyn" if k_ % 2 else "xalan", in_)
+        dyn_tests += [w_, path([dict(DOS), ch_(T_ANY, w_)], abs_=True), path([ch_(T_NODE, w_)]), fn("count", path([step("descendant-or-self", T_NODE, w_, abbr=False)])),
+                      path([step("ancestor-or-self", T_ANY, w_, abbr=False)]), filt(path([dict(DOS), ch_(T_ANY)], abs_=True), w_),
+                      path([ch_(T_ANY, bin_("=", fn("string", w_), fn("string", in_)))])]
+    for k_, t_ in enumerate(["@@", "1 +", "a[", "", "a b", "'", "foo()", "1 1"]):        # strings that are not expressions (or cannot be evaluated)
+        w_ = xpgen.xeval_bad("dyn" if k_ % 2 else "xalan", t_)
+        dyn_tests += [w_, fn("count", w_) if k_ % 2 else fn("string", w_), path([ch_(T_ANY, w_)])]
+    for d in range(2 if quick else 6):
+        n = flats[d]["n"]
+        for e in dyn_tests:
+            for ctx in (range(1, n + 1) if not quick else sorted(set([1, 2, n] + rng.sample(range(1, n + 1), min(n, 3))))):
+                cases.append((d + 1, ctx, 1, 1, e, {}))
     nrand = 6000 if quick else 120000
     varsets = [{}, {"n": {"t": "num", "v": {"k": "fin", "neg": False, "m": 16}}, "s": {"t": "str", "v": xdm.cps("t")},
                     "b": {"t": "bool", "v": True}}]
@@ -367,6 +390,10 @@ def run_cases(docs, flats, cases, wd, kind="native", mode="eval", tag="c02", fla
                 if mode == "eval":
                     toks = xplex.lex(text)
                     ev["toks"] = toks or []; ev["lexok"] = toks is not None
+                dt = xpgen.dyn_table(e)
+                if dt:
+                    ev["dyn"] = [dict({"text": xdm.cps(t_), "toks": xplex.lex(t_) or [], "lexok": xplex.lex(t_) is not None, "bad": a_ is None},
+                                      **({} if a_ is None else {"ast": a_})) for t_, a_ in dt]
             ev["nsmap"] = [{"p": xdm.cps(k_), "u": xdm.cps(v_)} for k_, v_ in sorted(NSMAP.items())]
             if "__cur" in vs:
                 ev["cur"] = vs["__cur"]
